@@ -103,7 +103,7 @@ def helper_semantics(ck, P, h, buf, idx, L):
         if code == 0:
             kinds["complete"] += 1
             st, m = D.prove(facts, binop("<=", end, L))
-            ck.verdict("P-MUST", fn, "a packet is returned only when it is complete: idx + (length field + 7) <= len(buf)", [] if st == "proved" else [f"returned under {cond}: {st} {m}"], cond[:80])
+            ck.verdict3("P-MUST", fn, "a packet is returned only when it is complete: idx + (length field + 7) <= len(buf)", st, m, cond[:80])
             probs = []
             ok_tm = tm is not None and tm.k == "listext" and tm.a[0] == tm0 and tm.a[1] == "append" and len(tm.a[2]) == 1 and slice_is(D.simplify(tm.a[2][0], facts), buf, idx, end)
             if not ok_tm:
@@ -116,7 +116,7 @@ def helper_semantics(ck, P, h, buf, idx, L):
         else:
             kinds["incomplete"] += 1
             st, m = D.prove(facts, binop(">", end, L))
-            ck.verdict("P-MUST", fn, "the incomplete-packet exit is taken only when idx + (length field + 7) > len(buf)", [] if st == "proved" else [f"taken under {cond}: {st} {m}"], cond[:80])
+            ck.verdict3("P-MUST", fn, "the incomplete-packet exit is taken only when idx + (length field + 7) > len(buf)", st, m, cond[:80])
             probs = []
             ok_q = q is not None and q.k == "list" and len(q.a[0]) == 1 and slice_is(q.a[0][0], buf, idx, None)
             if not ok_q:
